@@ -788,4 +788,5 @@ def inline_program(prog: Program) -> dict:
     absorbed = inlined_helpers - kept
     for q in absorbed:
         prog.functions[q].absorbed = True
-    return {"inlined_call_sites": len(inl.log), "functions_changed": sorted(touched), "helpers": sorted(inlined_helpers), "absorbed": sorted(absorbed)}
+    return {"inlined_call_sites": len(inl.log), "functions_changed": sorted(touched), "helpers": sorted(inlined_helpers), "absorbed": sorted(absorbed),
+            "pairs": sorted({(c, h) for c, h in inl.log if not h.startswith("<")})}
